@@ -205,7 +205,18 @@ class C15:
             return
         fb, _, _, _ = bind_args(fdim[0], fsum.params)
         tb, _, _, _ = bind_args(tdim[0], ts.params)
-        if fb.get(fsum.params[0]) == freqs and canon(fb.get("step", NONE)) == canon(("bin", "/", fs, nperseg)):
+        nfft = kw.get("nfft", NONE)
+        if nfft not in (NONE, nperseg):
+            # scipy zero-pads every window to nfft points: the bins it returns are fs / nfft apart
+            if fb.get(fsum.params[0]) == freqs and canon(fb.get("step", NONE)) == canon(("bin", "/", fs, nfft)):
+                ctx.ok("R15.3", site, "frequency step = fs / nfft over the nfft given to stft")
+            else:
+                ctx.bad("R15.3", file, "compute_spectrogram", f"stft(nperseg={show(nperseg)[:30]}, nfft={show(nfft)[:40]}); frequency step = {show(fb.get('step', NONE))[:50]}",
+                        f"stft is given nfft={show(nfft)[:60]}, so the frequency bins it returns are samplerate / nfft apart, but the advertised "
+                        f"step is `{show(fb.get('step', NONE))[:60]}`: for every window whose length is not nfft the frequency coordinates are "
+                        f"not first + i * step (441-sample window padded to 512: bins 86.1 Hz apart, advertised 100 Hz)", st[0].lineno,
+                        witness={"nperseg": 441, "nfft": 512, "samplerate": 44100, "advertised_step": 100.0, "realised_step": 86.1328125})
+        elif fb.get(fsum.params[0]) == freqs and canon(fb.get("step", NONE)) == canon(("bin", "/", fs, nperseg)):
             ctx.ok("R15.3", site, "frequency step = fs / nperseg over the nperseg given to stft")
         else:
             ctx.bad("R15.3", file, "compute_spectrogram", f"frequency step = {show(fb.get('step', NONE))[:60]}",
